@@ -283,7 +283,7 @@ func TestCheck(t *testing.T) {
 	}
 	mixed := func(rng *rand.Rand) (ref.Pos, bool) { return gen.AnyPos(rng), true }
 	const chunk = 250
-	for _, s := range []src{{"dense", gen.Dense, r.N(800000, 6000000)}, {"sparse", gen.Sparse, r.N(600000, 4000000)}, {"mixed", mixed, r.N(400000, 3000000)}, {"knbk", knbk, r.N(100000, 800000)}} {
+	for _, s := range []src{{"dense", gen.Dense, r.N(800000, 48000000)}, {"sparse", gen.Sparse, r.N(600000, 32000000)}, {"mixed", mixed, r.N(400000, 24000000)}, {"knbk", knbk, r.N(100000, 6400000)}} {
 		ev.Parallel(s.n/chunk, func(wk, i int) {
 			lc := lcs[wk]
 			rng := r.RNG("c19-"+s.name, i)
@@ -307,7 +307,7 @@ func TestCheck(t *testing.T) {
 	}
 	// playout positions (the tuner's data are game positions)
 	corpus := gen.Corpus()
-	ev.Parallel(r.N(4000, 30000), func(wk, i int) {
+	ev.Parallel(r.N(4000, 240000), func(wk, i int) {
 		lc := lcs[wk]
 		rng := r.RNG("c19-play", i)
 		for _, st := range gen.Playout(rng, corpus[rng.IntN(len(corpus))], 150, gen.BiasRich, 100) {
@@ -329,7 +329,7 @@ func TestCheck(t *testing.T) {
 		mapping(r, []string{n})
 	}
 	rng := r.RNG("c19-map", 0)
-	rounds := r.N(6, 24)
+	rounds := r.N(6, 40)
 	for rd := 0; rd < rounds; rd++ {
 		k := 6 + rng.IntN(5)
 		perm := rng.Perm(len(names))[:k]
